@@ -170,7 +170,13 @@ func (r *renderer) stmt(s *N) {
 		r.block(s.Body)
 	case SDefer:
 		r.t("defer")
-		r.expr(s.A[0], false)
+		if c := s.A[0]; c.K == ECall && c.A[0].K == EFunc {
+			// defer func() { ... }(): the parser wants the literal unparenthesised
+			r.expr(c.A[0], false)
+			r.args(c.A[1:])
+		} else {
+			r.expr(s.A[0], false)
+		}
 	case SFunc:
 		r.t("func")
 		r.t(s.S)
